@@ -97,6 +97,7 @@ type accessInv struct {
 }
 
 type world struct {
+	rootCancel   context.CancelFunc // cancels the context most recently given to SetContext (nil: none or already used)
 	c            *core.Ctx
 	rc           *refcount.RefCount[*val]
 	keep         bool
@@ -371,9 +372,20 @@ func (w *world) ctxStep(i int) {
 	c := w.c
 	{
 		w.maybeGate()
+		if w.rootCancel != nil && c.S.FaultP(120) {
+			// the context the RefCount was given is cancelled behind its back: the
+			// RefCount still has that context; a resolver call in progress is still
+			// the current one and whatever it returns is its result
+			c.Descf("ctx-changer: root-cancel of the current context")
+			c.S.Count("fault:root-cancel")
+			w.rootCancel()
+			w.rootCancel = nil
+			return
+		}
 		if c.S.PlanP(700) {
 			tag := len(w.ctxChangeInv) + 100
-			ctx, _ := core.TaggedContext(context.Background(), tag)
+			ctx, cancel := core.TaggedContext(context.Background(), tag)
+			w.rootCancel = cancel
 			c.Descf("ctx-changer: SetContext(ctx%d)", tag)
 			w.ctxChangeInv = append(w.ctxChangeInv, c.Tick())
 			w.ctxChangeRet = append(w.ctxChangeRet, 0)
@@ -394,6 +406,7 @@ func (w *world) ctxStep(i int) {
 				idx = len(w.ctxChangeRet) - 1
 			}
 			w.ctxTag = 0
+			w.rootCancel = nil
 			w.api("ClearContext", func() { w.rc.ClearContext() })
 			if idx >= 0 {
 				w.ctxChangeRet[idx] = c.Tick()
